@@ -14,6 +14,7 @@ import (
 	"context"
 	"fmt"
 	"net"
+	"runtime"
 	"sort"
 	"strconv"
 	"strings"
@@ -727,6 +728,7 @@ type vDRes struct {
 	Cancelled              bool // ctx was done when the call returned
 	PSAtEnd                []ma.Multiaddr
 	ConnAtEnd              bool
+	InnerReads             [][]ma.Multiaddr // findpeer: every PeerInfo(target) read returned by IpfsDHT.FindPeer / FindLocal = the inner answers
 	Keep                   context.CancelFunc // cancels the operation's ctx (call after the census)
 }
 
@@ -815,7 +817,17 @@ func (n *vDNet) Run(op vDOp) *vDRes {
 			res.ChanClosed = time.Now()
 		}
 	case "findpeer":
+		var rmu sync.Mutex
+		n.PS.SetPeerInfoHook(func(p peer.ID, ai peer.AddrInfo) {
+			if p != op.Target || !vDReadReturnedByFindPeer() {
+				return
+			}
+			rmu.Lock()
+			res.InnerReads = append(res.InnerReads, append([]ma.Multiaddr(nil), ai.Addrs...))
+			rmu.Unlock()
+		})
 		res.Info, res.Err = cl.FindPeer(ctx, op.Target)
+		n.PS.SetPeerInfoHook(nil)
 	case "findprovs":
 		for ai := range cl.FindProvidersAsync(ctx, op.Cid, op.Count) {
 			res.Emits = append(res.Emits, vDEmit{VT: time.Now(), Seq: n.H.Seq.Add(1), AI: ai})
@@ -840,6 +852,32 @@ func (n *vDNet) Run(op vDOp) *vDRes {
 		res.CancelVT = time.Time{}
 	}
 	return res
+}
+
+// vDReadReturnedByFindPeer reports whether the peerstore read in progress on this goroutine was
+// issued directly by IpfsDHT.FindPeer, or by IpfsDHT.FindLocal called from it: both return the
+// value read as their answer (routing.go FindPeer, dht.go FindLocal).
+func vDReadReturnedByFindPeer() bool {
+	var pcs [32]uintptr
+	fr := runtime.CallersFrames(pcs[:runtime.Callers(2, pcs[:])])
+	var fns []string
+	for {
+		f, more := fr.Next()
+		fns = append(fns, f.Function)
+		if !more {
+			break
+		}
+	}
+	for i, fn := range fns {
+		if !strings.HasSuffix(fn, "(*LogPeerstore).PeerInfo") {
+			continue
+		}
+		if i+1 < len(fns) && strings.HasSuffix(fns[i+1], "(*IpfsDHT).FindPeer") {
+			return true
+		}
+		return i+2 < len(fns) && strings.HasSuffix(fns[i+1], "(*IpfsDHT).FindLocal") && strings.HasSuffix(fns[i+2], "(*IpfsDHT).FindPeer")
+	}
+	return false
 }
 
 // ---- views over the logs -------------------------------------------------------------------------------
